@@ -335,6 +335,35 @@ M('C01', 'trailer-length-of-hashed-area-only', PGP, "        hlen = len(hcontext
 M('C01', 'trailer-length-fixed-octets-miscounted', PGP, "        hcontext.append(self.hash_algorithm)\n        hcontext += self._signature.subpackets.__hashbytearray__()\n        hlen = len(hcontext)\n",
   "        hcontext.append(self.hash_algorithm)\n        fixed = len(hcontext[:3])\n        hashed = self._signature.subpackets.__hashbytearray__()\n        hcontext += hashed\n        hlen = fixed + len(hashed)\n", 'C01.1')
 
+# ---- fifth round: __and__ evaluated concretely on record lists of size 0..2 on both sides (fast paths, aliases)
+_AND = "        self._subjects += other._subjects\n        return self"
+for _p in ('C01', 'C17'):
+    _r = 'C01.4' if _p == 'C01' else 'C17.2'
+    TW(_p, 'twin-C01-ref13', 'C01-ref13', only=('pgpy/types.py',))
+    TW(_p, 'twin-C17-ref13', 'C17-ref13', only=('pgpy/types.py',))
+    T(_p, 'twin-and-fast-path-other-empty', TY, _AND, "        if other._subjects == []:\n            return self\n\n" + _AND)
+    T(_p, 'twin-and-alias-in-place', TY, _AND, "        subjects = self._subjects\n        if not other._subjects:\n            return self\n\n        subjects += other._subjects\n        self._subjects = subjects\n        return self")
+    T(_p, 'twin-and-append-loop', TY, _AND, "        for entry in other._subjects:\n            self._subjects.append(entry)\n        return self")
+    M(_p, 'and-fast-path-self-empty', TY, _AND, "        if self._subjects == []:\n            return self\n\n" + _AND, _r)
+    M(_p, 'and-fast-path-returns-other', TY, _AND, "        if not self._subjects:\n            return other\n\n" + _AND, _r)
+    M(_p, 'and-concatenation-not-stored', TY, _AND, "        subjects = self._subjects + other._subjects\n        return self", _r)
+    M(_p, 'and-other-first', TY, _AND, "        self._subjects = other._subjects + self._subjects\n        return self", _r)
+    M(_p, 'and-drops-last-of-other', TY, _AND, "        self._subjects += other._subjects[:-1]\n        return self", _r)
+    M(_p, 'and-only-first-of-other', TY, _AND, "        if other._subjects:\n            self._subjects.append(other._subjects[0])\n        return self", _r)
+
+# ---- CR LF canonicalisation with a fast path for text without a line feed (sigdata: the CANON predicate reads the path's decisions)
+_CANON = "            _data += re.subn(br'\\r?\\n', b'\\r\\n', subject)[0]\n"
+T('C01', 'twin-canon-fast-path-no-lf', PGP, _CANON,
+  "            if isinstance(subject, (bytes, bytearray)) and b'\\n' not in subject:\n                _data += subject\n\n            else:\n                _data += re.subn(br'\\r?\\n', b'\\r\\n', subject)[0]\n")
+T('C01', 'twin-canon-fast-path-inverted-test', PGP, _CANON,
+  "            if b'\\n' in subject:\n                _data += re.subn(br'\\r?\\n', b'\\r\\n', subject)[0]\n            else:\n                _data += subject\n")
+M('C01', 'canon-fast-path-tests-cr', PGP, _CANON,
+  "            if b'\\r' not in subject:\n                _data += subject\n\n            else:\n                _data += re.subn(br'\\r?\\n', b'\\r\\n', subject)[0]\n", 'C01.1')
+M('C01', 'canon-fast-path-polarity', PGP, _CANON,
+  "            if b'\\n' in subject:\n                _data += subject\n\n            else:\n                _data += re.subn(br'\\r?\\n', b'\\r\\n', subject)[0]\n", 'C01.1')
+M('C01', 'canon-fast-path-short-text', PGP, _CANON,
+  "            if len(subject) < 64 or b'\\n' not in subject:\n                _data += subject\n\n            else:\n                _data += re.subn(br'\\r?\\n', b'\\r\\n', subject)[0]\n", 'C01.1')
+
 # ---- further spellings of the same functions (generalisation guards)
 T('C17', 'twin-pred-len-list', CO, _PRED,
   "        hits = [f for f in (SecurityIssues.WrongSig, SecurityIssues.Expired, SecurityIssues.Disabled, SecurityIssues.Invalid, SecurityIssues.NoSelfSignature) if f & self]\n        return len(hits) > 0")
